@@ -34,14 +34,25 @@ def marginalise(arr, attrs_from, attrs_to):
     return np.transpose(res, perm) if len(perm) > 1 else res
 
 
+DIVERGED = [0.0]
+
+
 def check_model(model, prob, r, tol_rel=1e-6):
+    DIVERGED[0] = 0.0
+    return _check_model(model, prob, r, tol_rel)
+
+
+def _check_model(model, prob, r, tol_rel=1e-6):
     """returns a description of the first incoherence found, or None"""
     attrs = [a for a, _ in prob['dom']]
     total = float(model.total)
     # float rounding: log Z of parameters of magnitude M carries an absolute error of about eps*M, i.e. a relative error of that size in
     # every table; the stiff cases (noise 1e-9, forced step) reach M ~ 1e12
     mags = [float(np.abs(v[np.isfinite(v)]).max()) for v in (np.asarray(model.potentials[c].values) for c in model.cliques) if np.isfinite(v).any()]
-    tol_rel = max(tol_rel, 16 * 2.2e-16 * max(mags + [0.0]))
+    if max(mags + [0.0]) > 1e12:
+        DIVERGED[0] = max(mags)          # beyond this the rounding argument says nothing: checked at the base tolerance, reported under its own key
+    else:
+        tol_rel = max(tol_rel, 16 * 2.2e-16 * max(mags + [0.0]))
     tol = tol_rel * max(1.0, total)
     with np.errstate(all='ignore'):
         if hasattr(model, 'marginals'):
@@ -139,7 +150,9 @@ def run(res, drv, tier, seed):
             res.count('with structural zeros')
         bad = check_model(model, prob, r)
         if bad:
-            res.violation('failing-input', f'{engine}, iters={iters}: {bad}', {'request': canon, 'expected': bad}, key=f'coherent:{engine}')
+            div = DIVERGED[0]
+            res.violation('failing-input', f'{engine}, iters={iters}: {bad}' + (f' (the parameters have diverged: max |theta| = {div:.3g})' if div else ''),
+                          {'request': canon, 'expected': bad}, key=f'coherent:{engine}' + (':diverged-parameters' if div else ''))
             continue
         # correspondence: bp / mle on doubles against the stored pair
         dom = eng.domain
